@@ -160,6 +160,31 @@ def _variants(n_steps):
     var("extra_sensor", lambda c: c["engines"][0]["sensors"].append(scen.ground_sensor(20003, 12.0, 27.0)))
     var("removed_sensor", lambda c: c["engines"][0]["sensors"].pop(1))
 
+    # membership changes WHILE THE RUN IS IN PROGRESS (events handled by Scenario.removeTarget / removeSensor /
+    # addSensor / addTarget): the remaining agents' truth must not notice
+    def _at(k):
+        return scen.iso(START + timedelta(seconds=k * DT))
+
+    def ev_remove(agent_id, agent_type, k):
+        return lambda c: c["events"].append({
+            "scope": "scenario_step", "scope_instance_id": 0, "start_time": _at(k), "event_type": "agent_removal",
+            "tasking_engine_id": 1, "agent_id": agent_id, "agent_type": agent_type})
+
+    var("event_remove_geo_target_step3", ev_remove(10002, "target", 3))
+    var("event_remove_twin_step2", ev_remove(10000, "target", 2))
+    var("event_remove_first_added_target_step3", ev_remove(10006, "target", 3))
+    var("event_remove_space_sensor_step3", ev_remove(20002, "sensor", 3))
+    var("event_remove_ground_sensor_step1", ev_remove(20001, "sensor", 1))
+    var("event_add_ground_sensor_step2", lambda c: c["events"].append({
+        "scope": "scenario_step", "scope_instance_id": 0, "start_time": _at(2), "event_type": "sensor_addition",
+        "tasking_engine_id": 1, "sensor_agent": scen.ground_sensor(20000, 12.0, 27.0)}))
+    var("event_add_space_sensor_step1", lambda c: c["events"].append({
+        "scope": "scenario_step", "scope_instance_id": 0, "start_time": _at(1), "event_type": "sensor_addition",
+        "tasking_engine_id": 1, "sensor_agent": scen.space_sensor(20009, [0.0, 7400.0, 100.0], [-5.2, 0.0, 5.2], kind="optical")}))
+    var("event_add_first_target_geo_step2", lambda c: c["events"].append({
+        "scope": "scenario_step", "scope_instance_id": 0, "start_time": _at(2), "event_type": "target_addition",
+        "tasking_engine_id": 1, "target_agent": scen.target_eci(9990, *scen.overhead_orbit(START, -3.0, 100.0, 35786.0, 90.0))}))
+
     def second_engine(c):
         c["engines"].append(scen.engine(2, [scen.target_eci(10004, *scen.LEO_B)], [scen.ground_sensor(20004, -20.0, 60.0)]))
 
